@@ -44,6 +44,27 @@ void Bus::build_tree(DP &dp, const cfg::Config &c, const std::vector<bool> &pres
 	std::vector<Item> items;
 	for (int bi : todo) items.push_back({true, bi});
 	for (int u = 0; u < unknown; u++) items.push_back({false, u});
+	bool twin = false;
+	if (deep && max_depth >= 3 && !items.empty() && dp.chance(60)) {
+		// twin branches: two first-level interfaces (not in the configuration), each with a second-level interface on the
+		// SAME local address; configured boards are placed beneath them with preference (same second-level byte in
+		// different branches: what a subtree computation must not confuse)
+		twin = true;
+		uint8_t a1 = (uint8_t) dp.range(1, 9), a2 = (uint8_t) (a1 % 9 + 1 + dp.pick(3)), k = (uint8_t) dp.range(1, 9);
+		auto add = [&](int par, uint8_t local, uint8_t tag) {
+			BusNode n;
+			n.uid = {0x80, 0x00, 0x0D, 0xEE, 0xDD, tag, (uint8_t) (0xB0 + tag)};
+			n.addr = nodes[(size_t) par].addr;
+			n.addr.push_back(local);
+			n.parent = par;
+			nodes.push_back(n);
+			nodes[(size_t) par].children.push_back((int) nodes.size() - 1);
+			return (int) nodes.size() - 1;
+		};
+		int i1 = add(0, a1, 1), i2 = add(0, a2, 2);
+		add(i1, k, 3);
+		add(i2, k, 4);
+	}
 	// generated placement order
 	for (size_t i = items.size(); i > 1; i--) std::swap(items[i - 1], items[dp.pick((unsigned) i)]);
 	for (auto &it : items) {
@@ -59,9 +80,15 @@ void Bus::build_tree(DP &dp, const cfg::Config &c, const std::vector<bool> &pres
 		for (size_t p = 0; p < nodes.size(); p++)
 			if ((p == 0 || (nodes[p].uid[0] & 0x80)) && (int) nodes[p].addr.size() < max_depth && nodes[p].children.size() < 30) parents.push_back((int) p);
 		int par = parents[dp.weighted({3, 2}) == 0 || parents.size() == 1 ? 0 : dp.pick((unsigned) parents.size())];
-		if (deep && parents.size() > 1 && dp.chance(150)) {
-			// prefer the deepest interface: chains down to the third address level
-			for (int pc : parents) if (nodes[(size_t) pc].addr.size() > nodes[(size_t) par].addr.size()) par = pc;
+		if (twin && dp.chance(190)) {
+			std::vector<int> third;
+			for (int pc : parents) if (nodes[(size_t) pc].addr.size() == 2) third.push_back(pc);
+			if (!third.empty()) par = third[dp.pick((unsigned) third.size())];
+		} else if (deep && parents.size() > 1 && dp.chance(170)) {
+			// below an interface that is not the root: several branches that reach the third address level
+			std::vector<int> inner;
+			for (int pc : parents) if (pc != 0) inner.push_back(pc);
+			if (!inner.empty()) par = inner[dp.pick((unsigned) inner.size())];
 		}
 		uint8_t local;
 		int guard = 0;
